@@ -90,17 +90,14 @@ def model(form, rm):
         media = {m: fam(r.cells, m) for m in MEDIA if fam(r.cells, m)}
         hint = fam(r.cells, "hint")
         guid = fam(r.cells, "guidance_hint")
-        if r.kind == "group" and not lab:
+        if r.kind == "group" and not lab and not media:
             pass
         elif any(k is not None for k in lab) or media:
             pending.append(((e.path, "label"), itext_map(lab) if lab else {}, "text"))
         elif lab:
             exp[(e.path, "label")] = ("inline", lab[None])
         for m, t in media.items():
-            if r.kind == "group" and not lab:
-                itext_map(t)  # still counts for the language set
-                continue  # a group without a label has no <label> to carry media: not modelled (ambiguous spelling)
-            pending.append(((e.path, m), itext_map(t), "media"))
+            pending.append(((e.path, m), itext_map(t), "media"))  # also for a group whose only 'label' is its media
         if r.kind == "q":
             if any(k is not None for k in hint) or guid:
                 if hint:
